@@ -130,6 +130,48 @@ fn extern_ref_to_relation(
     Ok((relation, None))
 }
 
+/// The values of one row of a relation literal, in the order of the relation's columns:
+/// a named field belongs to the column of its name, wherever it stands in the row.
+fn lower_literal_row(row: pl::Expr, columns: &[RelationColumn]) -> Result<Vec<Literal>> {
+    let span = row.span;
+    let same_fields = || {
+        Error::new_simple("rows of a relation literal must have the fields of its first row")
+            .with_span(span)
+    };
+
+    let fields = row.kind.into_tuple().map_err(|_| {
+        Error::new_simple("rows of a relation literal must be tuples").with_span(span)
+    })?;
+    if fields.len() != columns.len() {
+        return Err(same_fields());
+    }
+
+    // rows without field names (`from_text`) are given in the order of the columns
+    let by_position = fields.iter().all(|f| f.alias.is_none());
+
+    let mut fields: Vec<Option<pl::Expr>> = fields.into_iter().map(Some).collect();
+    let mut values = Vec::with_capacity(columns.len());
+    for (index, column) in columns.iter().enumerate() {
+        let position = if by_position {
+            Some(index)
+        } else {
+            let name = column.as_single().and_then(|name| name.as_ref());
+            fields
+                .iter()
+                .position(|f| f.as_ref().is_some_and(|f| f.alias.as_ref() == name))
+        };
+        let field = position.and_then(|p| fields[p].take());
+        let field = field.ok_or_else(same_fields)?;
+
+        values.push(field.try_cast(
+            |x| x.into_literal(),
+            Some("relation literal"),
+            "literals",
+        )?);
+    }
+    Ok(values)
+}
+
 fn tuple_fields_to_relation_columns(columns: Vec<TyTupleField>) -> Vec<RelationColumn> {
     columns
         .into_iter()
@@ -398,20 +440,7 @@ impl Lowerer {
                         .try_collect()?,
                     rows: elements
                         .into_iter()
-                        .map(|row| {
-                            row.kind
-                                .into_tuple()
-                                .unwrap()
-                                .into_iter()
-                                .map(|element| {
-                                    element.try_cast(
-                                        |x| x.into_literal(),
-                                        Some("relation literal"),
-                                        "literals",
-                                    )
-                                })
-                                .try_collect()
-                        })
+                        .map(|row| lower_literal_row(row, &columns))
                         .try_collect()?,
                 };
 
